@@ -282,9 +282,17 @@ theorem exec_good : ∀ (fuel : Nat) (ro : Bool) (gas : Nat) (p : List (Prog N))
       by_cases hc : gas < h.callc ∨ (ro = true ∧ h.xfer.isSome = true)
       · simp only [hc, ↓reduceIte]; exact good_fail s _
       · simp only [hc, ↓reduceIte]
-        have hb := ih (ro || h.kind == .staticcall) (fwdGas h gas + h.stip) body (s.enter h) hbody
-        rw [enter_view] at hb
-        have hb' := good_of_ext (ext_enter s h) hb
+        have hb' : Good s
+            (if h.unfunded s.native then (.revert, s, fwdGas h gas + h.stip)
+             else exec fuel (ro || h.kind == .staticcall) (fwdGas h gas + h.stip) body (s.enter h))
+            (if h.unfunded s.native then (.revert, s.toView, fwdGas h gas + h.stip)
+             else spec fuel (ro || h.kind == .staticcall) (fwdGas h gas + h.stip) body (s.toView.enter h)) := by
+          by_cases hu : h.unfunded s.native = true
+          · simp only [hu, ↓reduceIte]; exact ⟨rfl, rfl, fun _ => Ext.refl s, by simp⟩
+          · simp only [hu]
+            have hb := ih (ro || h.kind == .staticcall) (fwdGas h gas + h.stip) body (s.enter h) hbody
+            rw [enter_view] at hb
+            exact good_of_ext (ext_enter s h) hb
         rcases resolve_good h s (keepGas h gas) _ _ hb' with ⟨x, y, hx, hy, hext, hv, hgs⟩ | ⟨a, b, ha, hb2, hgood⟩
         · rw [hx, hy]
           simp only
@@ -300,10 +308,18 @@ theorem exec_good : ∀ (fuel : Nat) (ro : Bool) (gas : Nat) (p : List (Prog N))
       · simp only [hc, ↓reduceIte]; exact good_fail s _
       · simp only [hc, ↓reduceIte]
         have hev : EvGood (exec fuel) (spec fuel) inner := fun x hx ro' s' => ih ro' x.1 x.2 s' (hinner x hx)
-        have hb := runPre_good (exec fuel) (spec fuel) ro (h.kind != .call) (fwdGas h gas + h.stip) req sh out inner act
-          (s.enter h) hsh hev
-        rw [enter_view] at hb
-        have hb' := good_of_ext (ext_enter s h) hb
+        have hb' : Good s
+            (if h.unfunded s.native then (.revert, s, fwdGas h gas + h.stip)
+             else runPre (exec fuel) ro (h.kind != .call) (fwdGas h gas + h.stip) req sh out inner act (s.enter h))
+            (if h.unfunded s.native then (.revert, s.toView, fwdGas h gas + h.stip)
+             else specPre (spec fuel) ro (h.kind != .call) (fwdGas h gas + h.stip) req sh out inner act (s.toView.enter h)) := by
+          by_cases hu : h.unfunded s.native = true
+          · simp only [hu, ↓reduceIte]; exact ⟨rfl, rfl, fun _ => Ext.refl s, by simp⟩
+          · simp only [hu]
+            have hb := runPre_good (exec fuel) (spec fuel) ro (h.kind != .call) (fwdGas h gas + h.stip) req sh out inner act
+              (s.enter h) hsh hev
+            rw [enter_view] at hb
+            exact good_of_ext (ext_enter s h) hb
         rcases resolve_good h s (keepGas h gas) _ _ hb' with ⟨x, y, hx, hy, hext, hv, hgs⟩ | ⟨a, b, ha, hb2, hgood⟩
         · rw [hx, hy]
           simp only
@@ -416,10 +432,16 @@ theorem exec_ne_abort : ∀ (fuel : Nat) (ro : Bool) (gas : Nat) (p : List (Prog
       by_cases hc : gas < h.callc ∨ (ro = true ∧ h.xfer.isSome = true)
       · simp [hc]
       · simp only [hc, ↓reduceIte]
-        have hb := ih (ro || h.kind == .staticcall) (fwdGas h gas + h.stip) body (s.enter h) hbody
+        have hb : (if h.unfunded s.native then ((.revert, s, fwdGas h gas + h.stip) : Outcome × St N × Nat)
+            else exec fuel (ro || h.kind == .staticcall) (fwdGas h gas + h.stip) body (s.enter h)).1 ≠ .abort := by
+          by_cases hu : h.unfunded s.native = true
+          · simp [hu]
+          · simp only [hu]
+            exact ih (ro || h.kind == .staticcall) (fwdGas h gas + h.stip) body (s.enter h) hbody
         have hres := resolve_ne_abort h s.journal.length (keepGas h gas) _ hb
         cases hr : resolve h s.journal.length (keepGas h gas)
-            (exec fuel (ro || h.kind == .staticcall) (fwdGas h gas + h.stip) body (s.enter h)) with
+            (if h.unfunded s.native then (.revert, s, fwdGas h gas + h.stip)
+             else exec fuel (ro || h.kind == .staticcall) (fwdGas h gas + h.stip) body (s.enter h)) with
         | inl x => exact ih _ _ _ _ hrest
         | inr a => exact hres a hr
     | @pre h req sh out inner act rest hact hinner hrest =>
@@ -427,11 +449,17 @@ theorem exec_ne_abort : ∀ (fuel : Nat) (ro : Bool) (gas : Nat) (p : List (Prog
       by_cases hc : gas < h.callc ∨ (ro = true ∧ h.xfer.isSome = true)
       · simp [hc]
       · simp only [hc, ↓reduceIte]
-        have hb := runPre_ne_abort (exec fuel) ro (h.kind != .call) (fwdGas h gas + h.stip) req sh out inner act (s.enter h)
-          hact (fun x hx ro' s' => ih ro' x.1 x.2 s' (hinner x hx))
+        have hb : (if h.unfunded s.native then ((.revert, s, fwdGas h gas + h.stip) : Outcome × St N × Nat)
+            else runPre (exec fuel) ro (h.kind != .call) (fwdGas h gas + h.stip) req sh out inner act (s.enter h)).1 ≠ .abort := by
+          by_cases hu : h.unfunded s.native = true
+          · simp [hu]
+          · simp only [hu]
+            exact runPre_ne_abort (exec fuel) ro (h.kind != .call) (fwdGas h gas + h.stip) req sh out inner act (s.enter h)
+              hact (fun x hx ro' s' => ih ro' x.1 x.2 s' (hinner x hx))
         have hres := resolve_ne_abort h s.journal.length (keepGas h gas) _ hb
         cases hr : resolve h s.journal.length (keepGas h gas)
-            (runPre (exec fuel) ro (h.kind != .call) (fwdGas h gas + h.stip) req sh out inner act (s.enter h)) with
+            (if h.unfunded s.native then (.revert, s, fwdGas h gas + h.stip)
+             else runPre (exec fuel) ro (h.kind != .call) (fwdGas h gas + h.stip) req sh out inner act (s.enter h)) with
         | inl x => exact ih _ _ _ _ hrest
         | inr a => exact hres a hr
 
